@@ -181,7 +181,7 @@ sys.exit(1 if r["violations"] else 0)
         for t, e in errors:
             print(f"CHECKER-ERROR property={prop} {t}: {e[-800:]}")
         rc = 3
-    if n_ob == 0 and rc == 0:
+    if n_ob == 0 and rc == 0 and not any(b.get("cases") for b in bounded):
         print(f"CHECKER-ERROR property={prop} zero obligations generated")
         rc = 3
     for ob, rp, suffix in violations:
